@@ -95,7 +95,7 @@ CHECKS = {
             "before/after each DML statement, before/after each commit, every Python line in store/sqlite/*.py - is a crash point: "
             "a forked child is killed there, the parent reopens the file and requires every record to be its old or its new "
             "value, never missing; plus two-party conversations continued across restarts of either side. Crash points are "
-            "complete per operation instance; states and sequences are sampled. Manager level: level_prekeys / generate_signed_prekey / set_prekeys_as_sent through AxolotlManager with batch sizes 1..205; after every returned call the database files are copied as a kill would leave them and the copy must show what the live store shows. Crash children first replay a state-preserving tail of the history (and sometimes an upload confirmation) on their own connection before the judged operation. Busy start: another connection holds the profile's key store lock past the busy timeout while the client starts through the factory; after the lock is gone the next start must find the stored state. Ops store...Again: a record is stored under an id that is taken; refused or replaced, whatever the live store shows has to survive the restart that follows at once in half of the cases. Profiles: 2-3 profiles in one process, two of them for the same phone number; each key store file, read on its own, shows what was stored through that profile. Profile switch: one stack connects as A, disconnects, setProfile(B), connects: keys offered afterwards are B's, A's file is untouched. saveIdentity also pins the account's own identity key for a contact (chat with one's own number).",
+            "complete per operation instance; states and sequences are sampled. Manager level: level_prekeys / generate_signed_prekey / set_prekeys_as_sent through AxolotlManager with batch sizes 1..205; after every returned call the database files are copied as a kill would leave them and the copy must show what the live store shows. Crash children first replay a state-preserving tail of the history (and sometimes an upload confirmation) on their own connection before the judged operation. Busy start: another connection holds the profile's key store lock past the busy timeout while the client starts through the factory; after the lock is gone the next start must find the stored state. Ops store...Again: a record is stored under an id that is taken; refused or replaced, whatever the live store shows has to survive the restart that follows at once in half of the cases. Profiles: 2-3 profiles in one process, two of them for the same phone number; each key store file, read on its own, shows what was stored through that profile. Profile switch: one stack connects as A, disconnects, setProfile(B), connects: keys offered afterwards are B's, A's file is untouched. saveIdentity also pins the account's own identity key for a contact (chat with one's own number). Whole clients with several threads (c13_threads.py): application threads send while the network thread confirms key uploads (the confirmation is kept back until the sender has just executed the DELETE of a session replacement); the key store connection is watched from a stand-in sqlite3 module, the files are copied as a kill would leave them after every commit, after a sample of statements and after every commit made while another thread had unfinished statements on the shared connection, and a session / identity row found in one copy must be in every later one.",
             "Trusted: SQLite's atomic commit, the filesystem, python-axolotl (with the block-aligned padding shim). Process death only.",
             "DESIGN.md 4/C13"),
     "C10": ("exploration",
